@@ -99,6 +99,27 @@ def really_invalid(kind, obj):
         obj.arch = ""
 
 
+def unencodable(kind, obj):
+    """a nested value of the wrong type that no validator looks at: the failure comes from the encoder"""
+    def first(d):
+        return d[sorted(d)[0]]
+    if kind == "composeinfo":
+        v = first(obj.variants.variants)
+        v.paths.os_tree = {sorted(v.arches)[0]: b"Server/os"}
+    elif kind == "images":
+        first(first(obj.images)).copy().pop().checksums["sha256"] = b"ab"
+    elif kind == "rpms":
+        first(first(first(first(obj.rpms))))["sigkey"] = b"FD431D51"
+    elif kind == "modules":
+        first(first(first(obj.modules)))["rpms"].append(b"bash-0:5.1-2.el9.x86_64")
+    elif kind == "extra":
+        first(first(obj.extra_files))[0]["checksums"]["sha256"] = b"ab"
+    elif kind == "treeinfo":
+        obj.stage2.mainimage = b"images/install.img"
+    else:
+        obj.timestamp = b"1.5"
+
+
 def generate(rng):
     R = reflect()
     cases = []
@@ -106,6 +127,7 @@ def generate(rng):
         content = gen_content(rng, kind, R)
         for pre in (True, False):
             cases.append({"kind": kind, "content": content, "pre": pre, "inject": None})
+            cases.append({"kind": kind, "content": content, "pre": pre, "inject": "unencodable"})
             for pt in injection_points(kind):
                 cases.append({"kind": kind, "content": content, "pre": pre, "inject": pt})
     return cases
@@ -125,6 +147,8 @@ def impl(case):
         restore = None
         if case["inject"] is None:
             really_invalid(kind, obj)
+        elif case["inject"] == "unencodable":
+            unencodable(kind, obj)
         else:
             clsname, meth = case["inject"]
             mod, cls = clsname.split(".")
